@@ -374,6 +374,11 @@ def r14_6(ctx, rc):
     r1_5(ctx, rc)
 
 
+def r14_7(ctx, rc):
+    from .refcount import refcount_rule
+    refcount_rule(ctx, rc, RESERVE, RELEASE)
+
+
 RULES = [
     ('R14.1', 'reserve/release typestate on every exit', r14_1),
     ('R14.2', 'cache write: in rollback scope, backed up, compensated',
@@ -382,4 +387,6 @@ RULES = [
     ('R14.4', 'a file moved aside is always registered', r14_4),
     ('R14.5', 'a setup failure is recorded as such', r14_5),
     ('R14.6', 'reuse registers only after the fallible apply step', r14_6),
+    ('R14.7', 'release walk is the inverse of the reserve walk (R4.8)',
+     r14_7),
 ]
